@@ -472,7 +472,6 @@ func extractCmdClass(t *T) (string, error) {
 	}
 	deleteViaDeleteDB = strings.Contains(normSrc(func() string { b, _ := t.ReadFile(sqfile); return b }()), "return db.DeleteDB(dir, userID)")
 
-
 	// Backend.RemoveUser: close the user; unregister it; only then remove the files (which may fail)
 	unregBeforeFiles := false
 	if fd := FuncDecl(bf, "Backend", "RemoveUser"); fd != nil {
